@@ -21,7 +21,6 @@ Definition uProbe c (id : N) (stamp : option u128) : uinput :=
   Msg unit c (MOps unit [{| op_id := id; op_ni := 1; op_kind := ADD; op_elec := stamp; op_entry := tt |}]).
 Definition uClose c : uinput := HalfClose unit c.
 Definition uAbort c : uinput := Abort unit c.
-Definition mkout rs e : out := {| o_resps := rs; o_end := e |}.
 
 (* a case: history and what the implementation answered at each step *)
 Definition ucase := (list uinput * list out)%type.
